@@ -45,9 +45,13 @@ bool is_dec(const std::string &s, bool *is_int = nullptr) {
     }
     if (d1 + d2 == 0) return false;
     bool expo = false;
-    if (i < n && (s[i] == 'e' || s[i] == 'E')) {
+    // 488.2 7.7.2.2 allows white space between mantissa and exponent and after the 'E'
+    size_t j = i;
+    while (j < n && (s[j] == ' ' || s[j] == '\t')) j++;
+    if (j < n && (s[j] == 'e' || s[j] == 'E')) {
         expo = true;
-        i++;
+        i = j + 1;
+        while (i < n && (s[i] == ' ' || s[i] == '\t')) i++;
         if (i < n && (s[i] == '+' || s[i] == '-')) i++;
         size_t d3 = 0;
         while (i < n && isdigit((unsigned char) s[i])) i++, d3++;
@@ -878,11 +882,11 @@ std::string gen_lit(Rng &r, int cls, bool avoid_dot) {
     switch (cls) {
         case C_DEC: {
             static const char *ints[] = {"0", "1", "12", "-5", "+7", "007", "2147483647", "-2147483648", "99999"};
-            static const char *reals[] = {"1.5", "-2.25", "1e3", "2.5E-3", "10.", "+1.E2", "0.5"};
+            static const char *reals[] = {"1.5", "-2.25", "1e3", "2.5E-3", "10.", "+1.E2", "0.5", "1 E3", "1.5E -3", "2 e +1", "-1 e 3", "7\tE\t2"};
             static const char *dots[] = {".5", "+.5", "-.25", ".5e1"};
             int k = (int) r.below(avoid_dot ? 8 : 10);
             if (k < 5) return ints[r.below(9)];
-            if (k < 8) return reals[r.below(7)];
+            if (k < 8) return reals[r.below(sizeof reals / sizeof reals[0])];
             return dots[r.below(4)];
         }
         case C_DECSUF: {
@@ -903,8 +907,8 @@ std::string gen_lit(Rng &r, int cls, bool avoid_dot) {
             return v[r.below(8)];
         }
         case C_BLK: {
-            static const char *v[] = {"#13abc", "#10", "#205hello", "#14a,b;", "#11\"", "#3003x,y"};
-            return v[r.below(6)];
+            static const char *v[] = {"#13abc", "#10", "#205hello", "#14a,b;", "#11\"", "#3003x,y", "#9000000003abc", "#800000000"};
+            return v[r.below(sizeof v / sizeof v[0])];
         }
         default: {
             static const char *v[] = {"(1,2)", "(@1!2)", "(1:3)", "()", "(@1,2:4)"};
